@@ -2,6 +2,7 @@
 import itertools
 import os
 import posixpath
+import fnmatch
 import common as C
 
 PROPERTIES = ["C19"]
@@ -347,11 +348,11 @@ def parse_snapshot(line):
 INIT_TREE = {"s": ("d",), "o": ("d",), "o/of": ("f", "OUT"), "o/od": ("d",), "o/od/x": ("f", "X")}
 
 
-def py_resolve(tree, path, follow, depth=0):
+def py_resolve(tree, path, follow, depth=0, wd=("s",)):
     """kernel-like resolution on a snapshot; -> ('found', canonical path, entry) | ('missing', parent, name) | ('err',)"""
     if path == "" or depth > 40:
         return ("err",)
-    cur = [] if path.startswith("/") else ["s"]
+    cur = [] if path.startswith("/") else list(wd)
     comps = [c for c in path.split("/") if c != ""]
     i = 0
     budget = 200
@@ -419,6 +420,27 @@ def py_script(content, flags, script):
                 pos = max(pos, len(content))
         elif it[0] == "z":
             out.append(f"z={len(content)}")
+        elif it[0] == "p":
+            n = int(it[1:])
+            if wr and not rd:
+                out.append("p=fail")
+            else:
+                d = content[pos:pos + n]
+                out.append("p=" + hx(d))
+                pos += len(d)
+        elif it[0] == "v":
+            if not wr:
+                out.append("v=-1")
+            else:
+                content = (content + "\0" * (pos - len(content)))[:pos] + "VW" + content[pos + 2:]
+                pos += 2
+                out.append("v=2")
+        elif it == "i":
+            out.append("i=1")
+        elif it == "o":
+            out.append("o=0")
+        elif it == "f":
+            out.append("f=1")
         elif it[0] == "s":
             w, off = it[1], int(it[3:])
             base = 0 if w == "0" else pos if w == "1" else len(content)
@@ -478,7 +500,52 @@ def fs_reference(hist, impl):
                 bad = "rename reported success but the destination is not the old source"
             elif key != src[1] and src[1] in after:
                 bad = "rename reported success but the source is still there"
-        if not bad and op == "fsrmdir":
+        if not bad and op == "fslsp":
+            dpath, pat, donly = unhx(t[1]), unhx(t[2]), t[3] == "1"
+            rr = py_resolve(tree, dpath or ".", True)
+            if after != tree:
+                bad = "Directory::read changed the tree"
+            elif rr[0] == "found" and rr[2][0] == "d":
+                P = rr[1]
+                items = []
+                for q, e in tree.items():
+                    par, _, name = q.rpartition("/")
+                    if par != P:
+                        continue
+                    if pat and not fnmatch.fnmatchcase(name, pat):
+                        continue
+                    isd = e[0] == "d"
+                    if e[0] == "l":
+                        r2 = py_resolve(tree, (dpath + "/" if dpath else "") + name, True)
+                        isd = r2[0] == "found" and r2[2][0] == "d"
+                    if donly and not isd:
+                        continue
+                    items.append(f"{hx(name)}:{1 if isd else 0}")
+                want = sorted(["ls=1", "again=0", "afterclose=0"] + items)
+                if sorted(res.split(" ")) != want:
+                    bad = "Directory::read with pattern/dirsOnly: expected " + " ".join(want)
+            elif res != "ls=0":
+                bad = "Directory::open succeeded on something that is no directory"
+        if not bad and op == "fscd":
+            dpath, pth = unhx(t[1]), unhx(t[2])
+            rr = py_resolve(tree, dpath, True)
+            okcd = rr[0] == "found" and rr[2][0] == "d"
+            wd = ([c for c in rr[1].split("/") if c] if okcd else ["s"])
+            cw = "".join("/" + c for c in wd)
+            a = pth if ref_abs(pth) == "1" else cw + "/" + pth
+            def ex(x):
+                r1 = py_resolve(tree, x, False, wd=wd)
+                r2 = py_resolve(tree, x, True, wd=wd)
+                return (1 if r1[0] == "found" else 0, 1 if r2[0] == "found" and r2[2][0] == "d" else 0)
+            e1, e2 = ex(pth), ex(a)
+            want = f"cd={1 if okcd else 0} cwd={hx(cw)} abs={hx(a)} e={e1[0]} d={e1[1]} ea={e2[0]} da={e2[1]}"
+            if res != want or after != tree:
+                bad = "change/getCurrentDirectory/getAbsolutePath/exists: expected " + want
+            elif pth and not pth.startswith("\\") and ref_abs(pth) != "1" and e1 != e2:
+                bad = "getAbsolutePath(p) does not name what p names"
+        if not bad and op == "fsconst" and (res != "tmp=" + hx("/tmp") + " home=1" or after != tree):
+            bad = "getTempDirectory/getHomeDirectory"
+        if not bad and op in ("fsrmdir", "fsrmdiru"):
             rr = py_resolve(tree, unhx(t[1]), False)
             if r0 == "1":
                 if rr[0] != "found" or rr[2][0] != "d":
@@ -531,9 +598,9 @@ def fs_reference(hist, impl):
         if not bad and op == "fsexists":
             a_ = py_resolve(tree, unhx(t[1]), False)[0] == "found"
             b_ = py_resolve(tree, unhx(t[1]), True)
-            want = f"{1 if a_ else 0} {1 if b_[0] == 'found' and b_[2][0] == 'd' else 0}"
+            want = f"{1 if a_ else 0} {1 if b_[0] == 'found' and b_[2][0] == 'd' else 0} {1 if b_[0] == 'found' else 0}"
             if res != want:
-                bad = f"exists: expected {want}"
+                bad = f"exists/time: expected {want}"
         if not bad and op == "fsreadall":
             rr = py_resolve(tree, unhx(t[1]), True)
             want = "1 " + hx(rr[2][1]) if rr[0] == "found" and rr[2][0] == "f" else "0"
@@ -549,8 +616,8 @@ def fs_reference(hist, impl):
                 exp, final = py_script(content, flags, t[3])
                 want = dict(tree)
                 want[key] = ("f", final)
-                if res != "open=1 " + exp:
-                    bad = f"file bytes: expected 'open=1 {exp}'"
+                if res != "open=1 " + exp + " closed=1":
+                    bad = f"file bytes: expected 'open=1 {exp} closed=1'"
                 elif after != want:
                     bad = "file bytes: content after the script differs from the byte-array semantics"
             elif rr[0] == "missing" and not creates or rr[0] == "err":
@@ -625,7 +692,9 @@ def rand_script(rng):
     its = []
     for _ in range(rng.randrange(1, 6)):
         k = rng.random()
-        if k < 0.45: its.append("w" + hx("".join(rng.choice("abcXYZ") for _ in range(rng.choice([0, 1, 2, 3, 5, 9])))))
+        if k < 0.12:
+            its.append(rng.choice(["p0", "p1", "p2", "p3", "p7", "p100", "v", "v", "i", "o", "f"]))
+        elif k < 0.45: its.append("w" + hx("".join(rng.choice("abcXYZ") for _ in range(rng.choice([0, 1, 2, 3, 5, 9])))))
         elif k < 0.65: its.append(f"s{rng.choice('012')}:{rng.choice([0, 0, 1, 2, 3, 7, -1, -2, -20])}")
         elif k < 0.85: its.append("r")
         else: its.append("z")
@@ -651,7 +720,10 @@ def fs_random_history(rng, n):
                 rp += rng.choice(["/.", "/./", "/"])          # rmdir answers EINVAL for a last component "."
                 # ("x/.." is left to the corpus: the path runs through the tree that is being removed, so the result
                 #  depends on the order in which readdir reports the entries)
-            h.append(f"fsrmdir {hx(rp)} {rng.choice('011')}")
+            if rng.random() < 0.3:
+                h.append(f"fsrmdiru {hx(rp)} {rng.choice('011')} {rng.choice('12')}")
+            else:
+                h.append(f"fsrmdir {hx(rp)} {rng.choice('011')}")
         elif k < 0.40:
             h.append(f"fsunlink {hx(fs_path(rng, allow_out_final=True))}")
         elif k < 0.52:
@@ -674,9 +746,24 @@ def fs_random_history(rng, n):
             h.append(f"fsreadall {hx(fs_path(rng, allow_out_final=True))}")
         elif k < 0.80:
             h.append(f"fsls {hx(fs_path(rng, rng.choice(DIRN + ['i', 'l', '.'])))}")
-        elif k < 0.83:
+        elif k < 0.815:
             pp = "/".join(rng.choice(DIRN + ["i"]) for _ in range(rng.choice([1, 2, 2, 3])))
             h.append(f"fspurge {hx(pp)} {rng.choice('011')}")
+        elif k < 0.83:
+            j = rng.random()
+            if j < 0.5:
+                dp = fs_path(rng, rng.choice(DIRN + DIRN + ['i', 'l', '.', 'f']))
+                if rng.random() < 0.1: dp = ""
+                h.append(f"fslsp {hx(dp)} {hx(rng.choice(PATTERNS))} {rng.choice('01')} {rng.choice('012')}")
+            elif j < 0.8:
+                dp = fs_path(rng, rng.choice(DIRN + DIRN + ['i', 'l', '.', 'f', 'zz']))
+                qp = fs_path(rng, allow_out_final=True)
+                while ".." in qp.split("/"):
+                    qp = fs_path(rng, allow_out_final=True)
+                if rng.random() < 0.05: qp = rng.choice(["", "\\a", "c:/a", "."])
+                h.append(f"fscd {hx(dp)} {hx(qp)}")
+            else:
+                h.append("fsconst -")
         elif k < 0.85:
             h.append(f"fsabspath {hx(rand_path(rng, 3))}")
         elif k < 0.95:
@@ -685,6 +772,8 @@ def fs_random_history(rng, n):
             h.append(f"fsmkfile {hx(fs_path(rng, rng.choice(FILEN), decorate=False))} {hx(rng.choice(['', 'q', 'data']))}")
     return h
 
+
+PATTERNS = ["", "*", "?", "??", "a", "A", "*a", "a*", "?*", "*?*", "**", "f*g", "*l", "b?", "*.", ".*", "*b*", "a?b", "***?", "l", "*f", "a\\b"[:1] + "*"]
 
 FS_FIXTURE = [f"fscreate {hx('a/b')}", f"fsmkfile {hx('a/f')} {hx('hello')}", f"fsmkfile {hx('a/b/g')} {hx('xy')}",
               f"fssymlink {hx('/o/od')} {hx('a/l')}", f"fssymlink {hx('/o/of')} {hx('a/b/m')}", f"fssymlink {hx('/o/none')} {hx('n')}",
@@ -708,7 +797,11 @@ FS_SMALL = [f"fscreate {hx(p)}" for p in ["a", "a/f", "a/f/x", "c/b/a", "a/l", "
            [f"fsfile {hx('a/f')} {fl} {sc}" for fl in (3, 7) for sc in ("s0:9,r,z,s1:0", "s0:9,w41,s0:0,r,z", "s2:3,z,r,w42,s0:0,r", "s0:1,w5a,s2:0,w59,s0:0,r", "r,r,z,s1:-2,r")] + \
            [f"fsfile {hx('a/f')} 6 s0:1,w5a,w59,z"] + \
            [f"fsexists {hx(p)}" for p in ["a/l", "a/b/m", "n", "a/f", "zz", "i", "i/f"]] + \
-           [f"fsreadall {hx(p)}" for p in ["a/f", "a/b/m", "a", "n", "i/f"]] + [f"fsls {hx(p)}" for p in ["a", "a/l", "i", "", "a/f"]]
+           [f"fsreadall {hx(p)}" for p in ["a/f", "a/b/m", "a", "n", "i/f"]] + [f"fsls {hx(p)}" for p in ["a", "a/l", "i", "", "a/f"]] + \
+           [f"fslsp {hx(p)} {hx(pt)} {d} {m}" for p, pt in [("a", ""), ("a", "*"), ("a", "?"), ("a", "l"), ("", "*"), ("", "?"), ("a/l", "x"), ("a/f", "*"), ("a", "F")] for d in "01" for m in "012"] + \
+           [f"fsrmdiru {hx(p)} {r} {m}" for p in ["a", "a/b", "a/l", "c"] for r in "01" for m in "12"] + \
+           [f"fscd {hx(d)} {hx(q)}" for d, q in [("a", "f"), ("a", "b/g"), ("a/l", "x"), ("i", "f"), ("zz", "a/f"), ("a/f", "a"), ("a/b", "/s/a"), ("a", ""), ("a", "l"), ("", "a"), ("a", "n")]] + \
+           ["fsconst -"] + [f"fsfile {hx('a/f')} {fl} p2,i,o,f,p9,v,s0:0,r,p0" for fl in (1, 2, 3, 7)]
 
 
 def fs_histories(ctx):
